@@ -12,7 +12,7 @@
     checked by correspondence + oracle only; five defects of that feature were
     found and fixed, see known_findings.json). *)
 From Coq Require Import List Arith NArith ZArith Lia Permutation.
-From SV Require Import Common.Trie Common.TrieProofs C04.Model C04.Proofs.
+From SV Require Import Common.Trie Common.TrieProofs Common.TrieRegex C04.Model C04.Proofs.
 Import ListNotations.
 
 (** ** 1. The trie *)
@@ -55,6 +55,61 @@ Theorem trie_lookup_exact_then_wildcard :
     lookup re_match t h true =
     match getk V re_match t h with Some x => Some x | None => getk V re_match t (wild_of h) end.
 Proof. exact lookup_getk. Qed.
+
+(** ** 1b. The trie with left-most regex hostnames ([/re/.rest])
+
+    [host_key]: a plain hostname, or [/body/] followed by a plain tail, whose
+    regex compiles.  [wfr]: the structural invariant that allows regex leaves.
+    [cgetk]: the exact walk to a key. *)
+
+Theorem trie_regex_lookup_after_insert :
+  forall V re_ok (t : trie V) k v t',
+    host_key re_ok k -> insert re_ok t k v = (t', IOk) -> cgetk V t' k = Some (k, v).
+Proof. exact cgetk_insert_same. Qed.
+
+Theorem trie_regex_insert_succeeds_when_absent :
+  forall V re_ok (t : trie V) k v,
+    host_key re_ok k -> wfr V t -> cgetk V t k = None -> snd (insert re_ok t k v) = IOk.
+Proof. exact insert_ok_absent_r. Qed.
+
+Theorem trie_regex_other_keys_unaffected :
+  forall V re_ok (t : trie V) k k' v,
+    host_key re_ok k -> host_key re_ok k' -> k <> k' -> wfr V t ->
+    cgetk V (fst (insert re_ok t k v)) k' = cgetk V t k' /\
+    cgetk V (fst (remove t k)) k' = cgetk V t k'.
+Proof. intros. split; [apply cgetk_insert_other|apply (cgetk_remove_other V re_ok)]; assumption. Qed.
+
+(** remove undoes insert and prunes: the invariant (no stranded regex
+    subtree, distinct regex sources) survives every insert and remove *)
+Theorem trie_regex_remove_and_invariant :
+  forall V re_ok (t : trie V) k v,
+    host_key re_ok k -> wfr V t ->
+    cgetk V (fst (remove t k)) k = None /\ wfr V (fst (remove t k)) /\ wfr V (fst (insert re_ok t k v)).
+Proof.
+  intros. split; [apply (cgetk_remove_same V re_ok)|split; [apply (wfr_remove_k V re_ok)|apply wfr_insert_k]]; assumption.
+Qed.
+
+(** precedence of lookup: the request host's own name, else the wild-card
+    name, else a regex hostname of the same parent whose regex matches the
+    left-most label ([R]): some matching one when there is any — hence THE one
+    under the hypothesis that at most one regex hostname matches (the
+    documentation leaves regex-vs-regex undefined) — and none only when no
+    stored regex hostname matches *)
+Theorem trie_lookup_exact_wildcard_regex :
+  forall V re_match (t : trie V) h,
+    good_key h -> label_of h <> [STAR] -> wfr V t ->
+    exists R,
+      lookup re_match t h true =
+      match cgetk V t h with
+      | Some x => Some x
+      | None => match cgetk V t (wild_of h) with Some x => Some x | None => R end
+      end /\
+      (forall x, R = Some x ->
+                 exists src, re_match src (label_of h) = true /\
+                             cgetr V t (map lab (lsegs (tail_of h)) ++ [KRe src true]) = Some x) /\
+      (R = None -> forall body, mem SLASH body = false -> re_match (anchored body) (label_of h) = true ->
+                                cgetk V t (rkey body (tail_of h)) = None).
+Proof. exact lookup_precedence. Qed.
 
 (** ** 2. Selection within a host *)
 
@@ -289,4 +344,20 @@ Proof.
   - apply wf_insert_k; [repeat constructor; cbn; discriminate|].
     apply wf_insert_k; [repeat constructor; cbn; discriminate|apply wf_root].
   - split; [repeat constructor; cbn; discriminate|]. split; vm_compute; reflexivity.
+Qed.
+
+(** a left-most regex hostname next to an exact one: the exact name wins, the
+    regex serves the other matching labels, and removal restores the rest *)
+Example trie_regex_nonvacuous :
+  let rk := rkey [120; 46; 42]%N [46; 97; 46; 99; 111; 109]%N in            (* "/x.*/.a.com" *)
+  let t := fst (insert (fun _ => true) (fst (insert (fun _ => true) (root : trie Z) rk 1%Z)) w_x_a_com 2%Z) in
+  host_key (fun _ => true) rk /\
+  lookup (fun _ _ => true) t w_x_a_com true = Some (w_x_a_com, 2%Z) /\
+  lookup (fun _ _ => true) t w_xyz_a_com true = Some (rk, 1%Z) /\
+  lookup (fun _ _ => true) (fst (remove t rk)) w_xyz_a_com true = None.
+Proof.
+  cbv zeta. split.
+  - right. exists [120; 46; 42]%N, [46; 97; 46; 99; 111; 109]%N. split; [reflexivity|]. split; [|reflexivity].
+    split; [reflexivity|]. split; [right; eexists; reflexivity|reflexivity].
+  - repeat split; vm_compute; reflexivity.
 Qed.
